@@ -166,7 +166,7 @@ class CorePacket(Unit):
     def replay(self, model, label):
         key = label.split('[')[-1].rstrip(']')
         r = None
-        for variant in (0, 1, 2):
+        for variant in range(NVARIANTS):
             r = r or concrete_check(self.p, key, variant)
         return dict(confirmed=r is not None, call='core packet %s at protocol %d against the reference encoder' % (key, self.p),
                     observed=r or 'byte-level check with boundary values conforms')
@@ -174,7 +174,7 @@ class CorePacket(Unit):
     def bounded(self, rng, tier):
         fails, cnt = [], 0
         for key in sorted(ref.reference(self.p)):
-            for variant in range(3):
+            for variant in range(NVARIANTS):
                 cnt += 1
                 r = concrete_check(self.p, key, variant, rng)
                 if r is not None:
@@ -182,14 +182,23 @@ class CorePacket(Unit):
                                       witness='%s:%s' % (self.name, key)))
                     break
         return dict(name=self.name + '.byte-level', evaluations=cnt, failures=fails,
-                    bound='every core packet x 3 boundary/seeded value sets, independent byte-level encoder')
+                    bound='every core packet x %d boundary/seeded value sets (VarInt values and string/array lengths on both sides of '
+                    'the 1/2/3-byte length boundaries), independent byte-level encoder' % NVARIANTS)
 
 
 # ---- byte-level independent encoder (concrete) ---------------------------------------------------
+NVARIANTS = 6
+
+
 def conc_value(kind, variant, rng=None):
     r = rng
     if kind == 'varint':
-        return [0, (1 << 31) - 1, 300][variant]
+        return [0, (1 << 31) - 1, 300, 127, 16383, 128][variant]
+    if kind == 'string' and variant >= 3:
+        return ['y' * 127, 'z' * 16383, 'w' * 128][variant - 3]
+    if kind == 'bytes' and variant >= 3:
+        return [b'a' * 127, b'b' * 16383, b'c' * 128][variant - 3]
+    variant %= 3
     if kind in ('long', 'int', 'byte', 'ubyte', 'ushort'):
         lo, hi = dom(KIND_ATOM[kind])
         return [lo, hi, (r.randint(lo, hi) if r else 1)][variant]
@@ -286,4 +295,14 @@ def concrete_check(p, key, variant, rng=None):
 
 
 def units(tier):
-    return [CorePacket(p) for p in ref.RELEASES]
+    us = [CorePacket(p) for p in ref.RELEASES]
+    # the layouts above go through the field types' contracts; the byte-level contracts of those types (C02 / C03 units,
+    # FixedPoint / Angle / dispatch excluded: no core packet uses them) are claimed here too, so a field type that stops
+    # emitting the published encoding fails this property, not only C02 / C03
+    from . import c02
+    for u in c02.units(tier):
+        if type(u).__name__ in ('FixedPointUnit', 'AngleUnit', 'Dispatch'):
+            continue
+        u.prop, u.name = 'C07', 'C07.types.' + u.name.split('.', 1)[1]
+        us.append(u)
+    return us
